@@ -445,6 +445,74 @@ func main() {
 			}
 		})
 
+		// constructors given values that are not UTF-8 (raw, or behind well-formed percent escapes): either the
+		// constructor refuses, or what it built is valid UTF-8 and survives the round trip unchanged
+		c.Cases("construct-invalid", c.N(20_000, 200_000), 0, func(k *vf.Case) {
+			r := k.R
+			bad := vf.Pick(r, []string{"\xff", "\xc3", "\xed\xa0\x80", "\xf0\x9f\x92", "\xc0\xaf", "a\x80b", "\xfe\xff"})
+			val := r.ASCIIFrom("abc", r.Intn(4)) + bad + r.ASCIIFrom("xyz", r.Intn(4))
+			enc := ""
+			for i := 0; i < len(val); i++ {
+				if val[i] >= 0x80 || r.Chance(1, 5) {
+					enc += fmt.Sprintf("%%%02X", val[i])
+				} else {
+					enc += string(val[i])
+				}
+			}
+			key := genKey(r)
+			var m baggage.Member
+			var err error
+			how := r.Intn(4)
+			k.Guard("panic-construct", "invalid UTF-8", func() {
+				switch how {
+				case 0:
+					m, err = baggage.NewMember(key, enc)
+				case 1:
+					m, err = baggage.NewMemberRaw(key, val)
+				case 2:
+					var p baggage.Property
+					p, err = baggage.NewKeyValueProperty("p", enc)
+					if err == nil {
+						m, err = baggage.NewMemberRaw(key, "v", p)
+					}
+				default:
+					var p baggage.Property
+					p, err = baggage.NewKeyValuePropertyRaw("p", val)
+					if err == nil {
+						m, err = baggage.NewMemberRaw(key, "v", p)
+					}
+				}
+			})
+			k.C.Count("construct_invalid_utf8_cases", 1)
+			if err != nil {
+				k.C.Count("construct_invalid_utf8_rejected", 1)
+				return
+			}
+			what := []string{"NewMember", "NewMemberRaw", "NewKeyValueProperty", "NewKeyValuePropertyRaw"}[how]
+			held := m.Value()
+			for _, p := range m.Properties() {
+				if v, ok := p.Value(); ok {
+					held += "\x00" + v
+				}
+			}
+			if !utf8.ValidString(held) {
+				k.Violate("constructor-accepted-invalid-utf8", what, fmt.Sprintf("value %s accepted and held as %s", vf.Quote(val), vf.Quote(held)), nil)
+				return
+			}
+			b, err := baggage.New(m)
+			if err != nil {
+				return
+			}
+			back, err := baggage.Parse(b.String())
+			if err != nil {
+				k.Violate("roundtrip-parse-failed", what+" invalid UTF-8", err.Error(), nil)
+				return
+			}
+			if got := back.Member(key).Value(); got != m.Value() {
+				k.Violate("roundtrip-mismatch", what+" invalid UTF-8", fmt.Sprintf("held %s, after the round trip %s", vf.Quote(m.Value()), vf.Quote(got)), nil)
+			}
+		})
+
 		c.Cases("parse", c.N(200_000, 3_000_000), 0, func(k *vf.Case) {
 			r := k.R
 			var h string
